@@ -66,6 +66,32 @@ func genSites() error {
 					}
 					return true
 				})
+				// outermost method applied to each time.Now() call chain (time.Now().Local().UTC() -> UTC)
+				chainEnd := map[*ast.CallExpr]string{}
+				ast.Inspect(fd.Body, func(n ast.Node) bool {
+					c, ok := n.(*ast.CallExpr)
+					if !ok {
+						return true
+					}
+					inner := c
+					for {
+						s, ok := inner.Fun.(*ast.SelectorExpr)
+						if !ok {
+							break
+						}
+						x, ok := s.X.(*ast.CallExpr)
+						if !ok {
+							break
+						}
+						inner = x
+					}
+					if inner != c && selName(inner.Fun) == "time.Now" {
+						if _, seen := chainEnd[inner]; !seen {
+							chainEnd[inner] = c.Fun.(*ast.SelectorExpr).Sel.Name
+						}
+					}
+					return true
+				})
 				ast.Inspect(fd.Body, func(n ast.Node) bool {
 					c, ok := n.(*ast.CallExpr)
 					if !ok {
@@ -97,7 +123,15 @@ func genSites() error {
 							protoCalls[dir][s.Sel.Name] = true
 						}
 						if name == "time.Now" || name == "time.LoadLocation" || strings.HasSuffix(name, ".Local") && strings.HasPrefix(name, "time.") {
-							clock = append(clock, site{dir, fd.Name.Name, name, "", fmt.Sprintf("%s:%d", e.Name(), fset.Position(c.Pos()).Line)})
+							tgt := name
+							if name == "time.Now" {
+								end := chainEnd[c]
+								if end == "" {
+									end = "as-is"
+								}
+								tgt = name + " -> " + end
+							}
+							clock = append(clock, site{dir, fd.Name.Name, tgt, "", fmt.Sprintf("%s:%d", e.Name(), fset.Position(c.Pos()).Line)})
 						}
 					}
 					return true
